@@ -229,7 +229,8 @@ def plan(pid, tier, rng):
             groups += [(vg, [p_ for p_ in possets if len(p_) > 2], fam3) for vg in _split(noext, nsplit)]
         for gi, (vgroup, pss, gfam) in enumerate(groups):
             tag = "G_%s_%d" % (name, gi)
-            mod, cfg = mc_module("MC_" + tag, gfam, vgroup, pss, valseqs, errs, exacts, tg, False)
+            mod, cfg = mc_module("MC_" + tag, gfam, vgroup, pss, valseqs, errs, exacts, tg, False,
+                                 units=UNITS[len([j_ for j_ in jobs if j_["kind"] == "gen"]) % len(UNITS)])
             jobs.append(dict(tag=tag, kind="gen", mod=mod, cfg=_invs(cfg, CHEAP_INVS), fam=name))
         # theorem job: smaller domain, every theorem
         tposs = (pos[2:4] + pos[:1] + dup[:1]) if not thorough else (pos[:5] + dup[:2])
@@ -490,8 +491,10 @@ class Expect:
 
 def cfg_class(cfg):
     m = len(cfg["pos"])
-    return "%s/%s%s" % (cfg["cls"], "exact" if cfg["exact"] else "err=" + cfg["err"]["mode"],
-                        "/dup" if len({tuple(p) for p in cfg["pos"]}) < m else "")
+    return "%s/%s%s%s" % (cfg["cls"], "exact" if cfg["exact"] else "err=" + cfg["err"]["mode"],
+                          "/dup" if len({tuple(p) for p in cfg["pos"]}) < m else "",
+                          "" if unit_one(cfg) else "/units: length 2^%d, data 2^%d, covariance 2^%d"
+                          % (cfg["lunit"], cfg["vunit"][0], cfg["vunit"][1]))
 
 
 class _Collect:
@@ -679,9 +682,25 @@ def _replay_config(cfg, out, col, rng, chunks_tab, pid, level):
                 if r_.get("mode") == tag and r_.get("cfg") is cfg:
                     r_["localisation"] = dm
         if ii == 0:
-            k0 = k
+            k0, f0, v0 = k, f, v
     if not all_ok:
         return
+    if not unit_one(cfg):
+        # the same configuration in unit 1: the results must not depend on the units (powers of two are exact)
+        c1 = dict(cfg, lunit=0, vunit=[0, 0])
+        k1, _ = G("construct", build, c1, out, inv=("pinv", True), flavour=flavour)
+        f1, v1 = G("call", call, k1, c1, out, allidx)
+        col.calls += 1
+        # the units of a configuration never enter its kriging matrix unevenly (KrigeSys!MkCfg), so the system
+        # is the same up to an exact common power of two
+        utol = 1e-12
+        d = float(max(np.max(np.abs(f0 - f1) / np.maximum(1.0, np.abs(f1))), np.max(np.abs(v0 - v1))))
+        col.unit_stats = max(getattr(col, "unit_stats", 0.0), d / utol)
+        if not d <= utol:
+            col.violation("C06" if merged else "C05", "unit-dependence:%s:%s" % (cfg["cls"], "exact" if cfg["exact"] else "err=" + cfg["err"]["mode"]),
+                          "%s: estimate / variance differ by %r from the same configuration in unit 1 (tolerance %r)"
+                          % (cc, d, utol), dict(base_rp, mode="unit-relation", in_units=list(map(float, f0)), unit_one=list(map(float, f1)),
+                                                               var_in_units=list(map(float, v0)), var_unit_one=list(map(float, v1))))
     inv_r = invs[rng.randrange(len(invs))]
     kr, _ = G("construct", build, cfg, out, inv=(inv_r[0] if inv_r[1] else "pinv", inv_r[1]), flavour=flavour + 1)
     # get_mean
@@ -741,7 +760,7 @@ def _replay_config(cfg, out, col, rng, chunks_tab, pid, level):
         if dm and ok:
             drift_msgs += ["%s [n=%d chunk_size=%d]: %s" % (cc, nn, cs, m) for m in dm]
     # LogNormal wrapper: the same kriging system in normalised space
-    if cfg["cls"] != "Detrended" and (level or rng.random() < 0.35):
+    if cfg["cls"] != "Detrended" and units(cfg)[1] == 1.0 and (level or rng.random() < 0.35):
         expl = Expect(cfg, out, lognormal=True)
         kl, _ = G("construct", build, cfg, out, inv=(inv_r[0] if inv_r[1] else "pinv", inv_r[1]), lognormal=True, flavour=flavour)
         f, v = G("call", call, kl, cfg, out, allidx, chunk=rng.choice([None, 2]))
@@ -763,7 +782,7 @@ def roundtrip_exactness(cfg, out, col, rng):
     import gstools as gs
 
     n = len(cfg["pos"])
-    if out["status"] != "ok" or len({tuple(p) for p in cfg["pos"]}) < n or cfg["cls"] == "Detrended":
+    if out["status"] != "ok" or len({tuple(p) for p in cfg["pos"]}) < n or cfg["cls"] == "Detrended" or units(cfg)[1] != 1.0:
         return
     err_eff = [cfg["nug"] if cfg["err"]["mode"] == "nugget" else
                (cfg["err"]["e"] if cfg["err"]["mode"] == "scalar" else cfg["err"]["pat"][i]) for i in range(n)]
@@ -786,12 +805,13 @@ def roundtrip_exactness(cfg, out, col, rng):
                           "%s: cannot build with %s normalizer: %r" % (cfg_class(cfg), name, e), {"cfg": c2})
             continue
         dim = cfg["dim"]
-        cp = _coords(cfg["pos"], dim)
+        cp = _coords(cfg["pos"], dim, units(cfg)[0])
         kw = {}
         if cfg["ext"] != "none":
             kw["ext_drift"] = np.array([float(x) for x in out["edc"]])
         try:
             f, v = _guard("call", k, cp[0] if dim == 1 else cp, **kw)
+            v = v / units(cfg)[2]
         except CodeRaised as e:
             col.violation("C06", "roundtrip:%s:%s:call-raises" % (cfg["cls"], name),
                           "%s: call at the conditioning points with %s normalizer raised %r" % (cfg_class(cfg), name, e.exc),
@@ -825,7 +845,8 @@ POS_HIST_2D = [[0, 0], [3, 0], [0, 1]]
 
 
 def hist_module(name, fam, variants, possets, valseqs, exacts, targets, domains, depth):
-    mod, cfg = mc_module(name, fam, variants, possets, valseqs, ERRS[:1], exacts, targets, False, nugs=(0,))
+    mod, cfg = mc_module(name, fam, variants, possets, valseqs, ERRS[:1], exacts, targets, False, nugs=(0,),
+                         units=(-30, (-30, -15)) if fam[2] == 1 else (30, (0, 0)))
     mod = mod.replace("EXTENDS KrigeSys\n", "EXTENDS KrigeSysHist\n")
     extra = {k: _set(_tla(v) for v in vals) for k, vals in domains.items()}
     extra["HDepth"] = str(depth)
@@ -885,22 +906,23 @@ def hist_apply(k, st, op, flavour):
     name, field, value = op
     cfg = st["cfg"]
     dim = cfg["dim"]
+    lu, vu, cu = units(cfg)
     if name == "Refresh":
         k.set_condition()
     elif name == "SetMean":
-        k.mean = None if (value == [0, 0] and flavour % 2) else _fn(value, dim)
+        k.mean = None if (value == [0, 0] and flavour % 2) else _fn(value, dim, lu=lu, vu=vu)
     elif name == "SetTrend":
-        k.trend = None if (value == [0, 0] and flavour % 2) else _fn(value, dim, force_callable=(flavour % 3 == 1))
+        k.trend = None if (value == [0, 0] and flavour % 2) else _fn(value, dim, force_callable=(flavour % 3 == 1), lu=lu, vu=vu)
     elif name == "SetNorm":
-        k.normalizer = None if (value == [1, 0] and flavour % 2) else affine_normalizer(*value)
+        k.normalizer = None if (value == [1, 0] and flavour % 2) else affine_normalizer(value[0], value[1] * vu)
     elif flavour % 3 == 2:
         k.model = make_model(dict(cfg, _no_temporal=True), 1)     # assign a new model object
     elif name == "SetVar":
-        k.model.var = float(value)
+        k.model.var = float(value) * cu
     elif name == "SetNug":
-        k.model.nugget = float(value)
+        k.model.nugget = float(value) * cu
     elif name == "SetLen":
-        k.model.len_scale = float(value)
+        k.model.len_scale = float(value) * lu
     elif name == "SetStretch":
         k.model.anis = 1.0 / value
     elif name == "SetQuarter":
@@ -1361,6 +1383,8 @@ def _replay_job_inner(job):
         if pid == "C06" and (tier == "thorough" or rng.random() < 0.25):
             roundtrip_exactness(cfg, out, col, rng)
         res["configs"] += 1
+        ukey = "length 2^%d, data 2^%d, covariance 2^%d" % (cfg["lunit"], cfg["vunit"][0], cfg["vunit"][1])
+        res.setdefault("units", {})[ukey] = res.setdefault("units", {}).get(ukey, 0) + 1
         res["rejected"] += out["status"] == "Rejected"
         res["merged"] += bool(out["merged"])
         if out["status"] == "ok":
@@ -1370,6 +1394,7 @@ def _replay_job_inner(job):
     res["calls"] = col.calls
     res["violations"] = col.violations
     res["drift"] = col.drift
+    res["unit_stats"] = getattr(col, "unit_stats", 0.0)
     return res
 
 
@@ -1505,6 +1530,11 @@ def run(pid, tier, seed, replay=None):
         "lattice: integer positions (1-D; 2-D on 3-4-5 layouts; space+time with anis 1/4), Linear/Spherical/Cubic models with "
         "integer length scale so that every occurring correlation is a rational computed by TLC; values in -2..2; "
         "variance in {1,2}, nugget in {0,1}; measurement errors <= nugget (documented precondition)",
+        "units: every gen job runs in one unit combination (length 2^{0,-30,-40,30} on positions, targets and len_scale; data "
+        "2^{0,-30,20} on values/mean/trend; covariance 2^{0,-15,10} on variance/nugget/errors); TLC's rationals are unit independent "
+        "(theorems LengthUnitInvariant / ValueUnitScaling), results are divided by the exact power of two before comparison and "
+        "additionally compared with the unit-1 run of the implementation at 1e-12; a unit stays 1 where it would enter the kriging "
+        "matrix unevenly (functional drift rows / covariance block against constraint rows: numerically singular, excluded by the property)",
         "identity normalizer in the exact part; LogNormal is bound through exp() of TLC's rational (C05) and through the "
         "exactness relation at 1e-8 (C06, also BoxCox)",
         "singular systems are excluded except coincident points with zero error (expected result = merged system); "
@@ -1571,6 +1601,11 @@ def run(pid, tier, seed, replay=None):
                 if res.get("steps"):
                     rep.extra["history_steps_on_real_objects"] = rep.extra.get("history_steps_on_real_objects", 0) + res["steps"]
                     rep.extra["histories_replayed"] = rep.extra.get("histories_replayed", 0) + res["configs"]
+                for k_, v_ in res.get("units", {}).items():
+                    uu = rep.extra.setdefault("configurations_per_unit", {})
+                    uu[k_] = uu.get(k_, 0) + v_
+                rep.extra["unit_relation_max_difference_over_1e-12"] = max(
+                    rep.extra.get("unit_relation_max_difference_over_1e-12", 0.0), res.get("unit_stats", 0.0))
                 nconf += res["configs"]
                 nrej += res["rejected"]
                 nmerged += res["merged"]
